@@ -101,7 +101,10 @@ PTwo == PC(DyInt(2))
 PReflect(a, nrm, i) == PSub(PC(a[i]), PMul(PMul(PTwo, PDot(a, nrm)), PC(nrm[i])))                 \* a - 2 (a.n) n
 PProjN(a, nrm, i) == PMul(PDot(a, nrm), PC(nrm[i]))                                               \* (a.n) n
 PRejN(a, nrm, i) == PSub(PC(a[i]), PProjN(a, nrm, i))
-PDist2(a, b) == PSumSeq([k \in 1..Len(a) |-> PMul(PSub(PC(a[k]), PC(b[k])), PSub(PC(a[k]), PC(b[k])))], 1)
+\* squared distance: the terms combined are the squared DIFFERENCES (each difference is one rounding of an exact value), so the
+\* bound is relative to sum (a_k - b_k)^2 itself -- the expansion |a|^2 - 2 a.b + |b|^2 cancels catastrophically for nearby points far
+\* from the origin and is rejected
+PDist2(a, b) == PSumSeq([k \in 1..Len(a) |-> PMul(PC(DySub(a[k], b[k])), PC(DySub(a[k], b[k])))], 1)
 
 DV(s) == [i \in 1..Len(s) |-> DecD(s[i])]
 DM(m) == [c \in 1..Len(m) |-> DV(m[c])]
